@@ -17,7 +17,7 @@ CfgOf(T) == [n \in {t[1] : t \in T} |->
 BaseLay == [cwd |-> <<"w">>, mode |-> "search_yml", cfgdir |-> <<"w">>, decoy |-> LY!NoDecoy]
 NoFp    == [point |-> "-", key |-> "-"]
 World(tag, shape, argv, lay, T, occ, fp, pf) ==
-  [tag |-> tag, shape |-> shape, argv |-> argv, lay |-> lay, cfg |-> CfgOf(T), occ |-> occ, fp |-> fp, pkgfault |-> pf, tagged |-> FALSE, cfgkind |-> "normal"]
+  [tag |-> tag, shape |-> shape, argv |-> argv, lay |-> lay, cfg |-> CfgOf(T), occ |-> occ, fp |-> fp, pkgfault |-> pf, tagged |-> FALSE, cfgkind |-> "normal", mout |-> "default"]
 Run(tag, shape, T) == World(tag, shape, "run", BaseLay, T, {}, NoFp, "-")
 
 \* marker values: the text names the level that wrote it
@@ -170,6 +170,11 @@ Commands(B) ==
                  [T |-> B \cup {<<"env", "structname", SN("env")>>, <<"env", "log-level", "debug">>, <<"flag", "log-level", "error">>,
                                <<"env", "build-tags", "extra">>}]}}
 
+\* INIT and MIGRATE: the two commands that write a configuration file (target present / absent; --outfile)
+InitMigrate(B) ==
+  {World("init", "S1", "init", BaseLay, B, occ, NoFp, pf) : occ \in {{}, FilesOf(B)}, pf \in {"-", "nocfg"}}
+  \cup {[World("migrate", "S1", "migrate", BaseLay, B, {}, NoFp, pf) EXCEPT !.mout = mo] : pf \in {"-", "nocfg"}, mo \in {"default", "rel"}}
+
 \* LOCATE: where the config file is and how it is found (Layout.tla), with a decoy that must not be used
 Lays(Modes, Cwds) == {l \in LY!AllLayouts : l.mode \in Modes /\ l.cwd \in Cwds /\ l.cfgdir \in {<< >>, <<"w">>} /\ l.mode # "search_both"
                                              /\ l.decoy \in {LY!NoDecoy, << >>, <<"w">>, <<"w", "a">>}}
@@ -179,7 +184,7 @@ Locate(B, Modes, Cwds, Argvs) ==
 AllModes == LY!Modes \ {"search_both"}
 Quick == Levels({{}}) \cup CrossRef({{}, {"a.A1.1"}}) \cup SelectW({"S1", "S2"}, {{}, {"A1", "A2", "B1"}}, {})
          \cup Recur({FALSE}, {}, <<"ab">>) \cup Recur2({}, {"U"}) \cup Schema(BgS) \cup PerFile(BgS) \cup CfgKinds \cup FsWorlds(Bg3, {{}, {OneFile(FilesOf(Bg3))}, FilesOf(Bg3)}) \cup Fault(Bg3) \cup Sources(Bg3) \cup BuildTags(Bg3)
-         \cup Commands(Bg3) \cup Locate(Bg3, AllModes, {<<"w", "a">>}, {"run"})
+         \cup Commands(Bg3) \cup InitMigrate(Bg3) \cup Locate(Bg3, AllModes, {<<"w", "a">>}, {"run"})
          \cup Locate(Bg3, {"search_yml", "flag_rel", "env_abs", "flagenv_abs"}, {<<"w">>}, {"showconfig"})
 MCTiny     == {Run("tiny", "S1", Bg5)}
 MCQuick    == {x \in Quick : WellFormed(x)}
